@@ -47,11 +47,13 @@ def gen_length(rng):
 
 
 def gen_weights(rng, n):
-    kind = rng.choice(['none', 'none', 'one', 'half-one', 'dyadic', 'upper'])
+    kind = rng.choice(['none', 'none', 'one', 'uniform', 'half-one', 'dyadic', 'upper'])
     if kind == 'none':
         return kind, None
     if kind == 'one':
         return kind, [1.0] * n
+    if kind == 'uniform':
+        return kind, [rng.randint(1, WGRID) / WGRID] * n
     if kind == 'half-one':
         return kind, [rng.choice([0.5, 1.0]) for _ in range(n)]
     if kind == 'dyadic':
@@ -63,9 +65,37 @@ def grid(x):
     return round(x * GRID) / GRID
 
 
+STEP_LEVELS = [(0.0, -1.0), (-1.0, 0.0), (0.0, 0.5849609375), (0.5849609375, 0.0), (0.0, 1.0), (1.0, 0.0)]
+
+
+def gen_two_steps(rng, n):
+    """two clean steps a | b | c; when n allows, separated as C11_two_steps asks (>= 32 / 64 / 32), with the
+    boundary separations over-represented"""
+    a = rng.choice([0.0, 0.0, -1.0, grid(rng.uniform(-1, 1))])
+    d1 = rng.choice([1.0, -1.0, grid(0.585), 0.25, 0.125, grid(rng.uniform(-2, 2))]) or 1.0
+    d2 = rng.choice([-d1, -d1, d1, d1 / 2, -2 * d1, grid(rng.uniform(-2, 2))]) or -1.0
+    b, c = grid(a + d1), grid(a + d1 + d2)
+    if b == a:
+        b = a + 1.0
+    if c == b:
+        c = b - 1.0
+    if n >= 128 and rng.random() < 0.85:
+        t1 = rng.choice([32, rng.randint(32, n - 96)])
+        t2 = rng.choice([t1 + 64, n - 32, rng.randint(t1 + 64, n - 32)])
+    else:
+        t1 = rng.randint(1, n - 2)
+        t2 = rng.randint(t1 + 1, n - 1)
+    return 'clean-two-steps', [a] * t1 + [b] * (t2 - t1) + [c] * (n - t2), ('two', t1, t2, a, b, c)
+
+
 def gen_signal(rng, n):
-    """-> (kind, values, truth) ; truth = ('flat', c) | ('step', t, a, b) | None"""
-    kind = rng.choice(['rand', 'plateau', 'flat', 'clean-step', 'noisy-step', 'multi', 'alphabet', 'noise'])
+    """-> (kind, values, truth) ; truth = ('flat', c) | ('step', t, a, b) | ('two', t1, t2, a, b, c) | None"""
+    kind = rng.choice(['rand', 'plateau', 'flat', 'clean-step', 'clean-two-steps', 'noisy-step', 'multi', 'alphabet', 'noise'])
+    if kind == 'clean-two-steps':
+        if n < 8:
+            kind = 'clean-step'
+        else:
+            return gen_two_steps(rng, n)
     if kind == 'flat' or n < 2:
         c = rng.choice([0.0, 1.0, -1.0, grid(rng.uniform(-2, 2))])
         return 'flat', [c] * n, ('flat', c)
@@ -412,12 +442,104 @@ def property_oracle_ideal(truth, wt, n, res):
     if truth and truth[0] == 'flat':
         if k != 1 or abs(mean[0] - truth[1]) > 1e-9:
             return 'C11_flat', 'a constant signal is not reported as one segment at the constant'
-    if truth and truth[0] == 'step' and wt is None:
+    uniform = wt is None or (len(set(wt)) == 1 and wt[0] > 0)
+    positive = wt is None or all(x > 0 for x in wt)
+    if truth and truth[0] == 'step' and positive:
         _, t, a, b = truth
         if t >= 32 and n - t >= 32:
-            if st != [0, t] or abs(mean[0] - a) > 1e-9 or abs(mean[1] - b) > 1e-9:
-                return 'C11_clean_step', 'a noiseless step with >= 32 bins per side is not exactly one breakpoint at t with means a, b'
+            if (st != [0, t] or ed != [t - 1, n - 1] or sz != [t, n - t]
+                    or abs(mean[0] - a) > 1e-9 or abs(mean[1] - b) > 1e-9):
+                return ('C11_clean_step' if uniform else 'C11_clean_step_weighted',
+                        'a noiseless step with >= 32 bins per side (no / any positive weights) is not exactly one '
+                        'breakpoint at t with sizes t, n-t and means a, b')
+    if truth and truth[0] == 'two' and uniform:
+        _, t1, t2, a, b, c = truth
+        if t1 >= 32 and t2 - t1 >= 64 and n - t2 >= 32:
+            if not set(st[1:]) <= {t1, t2}:
+                return 'C11_two_steps', 'two separated noiseless steps: a breakpoint other than t1, t2 is reported'
+            if st == [0, t1, t2] and (abs(mean[0] - a) > 1e-9 or abs(mean[1] - b) > 1e-9 or abs(mean[2] - c) > 1e-9):
+                return 'C11_two_steps', 'two separated noiseless steps found, but the segment means are not a, b, c'
     return None
+
+
+def weighted_shape_oracle(haar, truth, sig, wt, n):
+    """C11_clean_step_weighted on the code's HaarConv / FindLocalPeaks, arbitrary positive weights: per level the
+    convolution (in the direction of the step) is 0 up to t-h, strictly increasing to t, strictly decreasing to t+h,
+    0 after, and equals scale * (b - a) * (weight share past t of the upper window - of the lower window); the peaks
+    are exactly [t]."""
+    _, t, a, b = truth
+    if not (t >= 32 and n - t >= 32):
+        return None
+    I = np.array(sig, dtype=float)
+    W = np.array(wt, dtype=float)
+    sgn = 1.0 if b > a else -1.0
+    wi = [int(round(x * WGRID)) for x in wt]
+    for l in LEVELS:
+        h = 2 ** l
+        conv = [float(x) for x in haar.HaarConv(I, W, h)]
+        v = [sgn * x for x in conv]
+        ok = (all(abs(v[k]) <= 1e-12 for k in range(0, t - h + 1)) and all(abs(v[k]) <= 1e-12 for k in range(t + h, n))
+              and all(v[k] < v[k + 1] for k in range(t - h, t)) and all(v[k + 1] < v[k] for k in range(t, min(t + h, n - 1))))
+        if ok and all(abs(x * WGRID - round(x * WGRID)) < 1e-12 for x in wt):
+            ext = wi[:h][::-1] + wi + wi[n - h:][::-1]       # mirrored weights, index j + h
+
+            def share(s):
+                tot = sum(ext[s + h:s + 2 * h])
+                return Fraction(sum(ext[j + h] for j in range(s, s + h) if j >= t), tot)
+            for k in (t - h + 1, t - 1, t, t + 1, t + h - 1):
+                e = math.sqrt(h / 2) * (b - a) * float(share(k) - share(k - h))
+                if abs(conv[k] - e) > 1e-9 * max(1.0, abs(e)):
+                    ok = False
+        if not ok:
+            return 'C11_clean_step_weighted', ('level %d: the weighted convolution of a noiseless step is not the '
+                                               'unimodal weight-share shape (0, strictly up to t, strictly down, 0)' % l), {'code': conv}
+        peaks = [int(x) for x in haar.FindLocalPeaks(np.array(conv))]
+        if peaks != [t]:
+            return 'C11_clean_step_weighted', 'level %d: FindLocalPeaks does not return exactly [t]' % l, \
+                {'code': peaks, 'expected': [t]}
+    return None
+
+
+def level_shape_oracle(haar, truth, sig, wt, n):
+    """C11_clean_step / C11_two_steps, level by level, on the code's HaarConv and FindLocalPeaks: the convolution is
+    the tent amp * max(0, h - |k - t|) (sum of two tents for two steps) and the peaks are exactly the step positions."""
+    if not truth or truth[0] not in ('step', 'two'):
+        return None
+    if not (wt is None or (len(set(wt)) == 1 and wt[0] > 0)):
+        if truth[0] == 'step' and all(x > 0 for x in wt):
+            return weighted_shape_oracle(haar, truth, sig, wt, n)
+        return None
+    if truth[0] == 'step':
+        _, t, a, b = truth
+        if not (t >= 32 and n - t >= 32):
+            return None
+        steps, clause = [(t, b - a)], 'C11_clean_step'
+    else:
+        _, t1, t2, a, b, c = truth
+        if not (t1 >= 32 and t2 - t1 >= 64 and n - t2 >= 32):
+            return None
+        steps, clause = [(t1, b - a), (t2, c - b)], 'C11_two_steps'
+    I = np.array(sig, dtype=float)
+    W = None if wt is None else np.array(wt, dtype=float)
+    for l in LEVELS:
+        h = 2 ** l
+        conv = [float(x) for x in haar.HaarConv(I, W, h)]
+        f = (1.0 / math.sqrt(2.0 * h)) if wt is None else (math.sqrt(h / 2) / h)
+        exp = [f * sum(d * max(0, h - abs(k - t)) for t, d in steps) for k in range(n)]
+        if len(conv) != n or any(abs(x - e) > 1e-9 * max(1.0, abs(e)) for x, e in zip(conv, exp)):
+            return clause, 'level %d: the convolution of a noiseless step is not the tent amp * max(0, h - |k - t|)' % l, \
+                {'code': conv, 'expected': exp}
+        peaks = [int(x) for x in haar.FindLocalPeaks(np.array(conv))]
+        if peaks != [t for t, _ in steps]:
+            return clause, 'level %d: FindLocalPeaks on the tent does not return exactly the step position(s)' % l, \
+                {'code': peaks, 'expected': [t for t, _ in steps]}
+    return None
+
+
+def means_oracle_rows(sig, wt, res):
+    """C11_step_means on the code's output: every row's mean is the (weighted) mean of exactly its bins"""
+    exp = seg_means_oracle(sig, res['start'][1:], wt)
+    return len(exp) == len(res['mean']) and all(abs(float(e) - m) <= 1e-9 * max(1.0, abs(float(e))) for e, m in zip(exp, res['mean']))
 
 
 def check_haarseg(ck, haar, cases):
@@ -453,6 +575,15 @@ def check_haarseg(ck, haar, cases):
         bad = property_oracle_ideal(truth, wt, n, res)
         if bad:
             ck.violation('haarSeg: ' + bad[1], case, code=res, clause=bad[0])
+            continue
+        if not means_oracle_rows(sig, wt, res):
+            ck.violation('haarSeg: a reported segment mean is not the (weighted) mean of exactly the bins of its row',
+                         case, code=res, expected=[float(x) for x in seg_means_oracle(sig, res['start'][1:], wt)],
+                         clause='C11_step_means')
+            continue
+        bad = level_shape_oracle(haar, truth, sig, wt, n)
+        if bad:
+            ck.violation('haarSeg levels: ' + bad[1], case, clause=bad[0], **bad[2])
             continue
         if ncalls != len(LEVELS):
             ck.tie_break('haarSeg ran %d levels, the model (Gen/HaarDefaults) has %d' % (ncalls, len(LEVELS)), case)
@@ -522,9 +653,379 @@ def check_fdr(ck, haar, n_cases):
             ck.tie_break('model fdr_thres differs from FDRThres', case, code=t, model=m)
 
 
+# ----------------------------------------------------------------------------
+# one_chrom / segment_haar: the table built from bin coordinates
+
+
+class StubArm:
+    """duck-typed stand-in for the CopyNumArray one_chrom receives: smooth_log2() returns the given (dyadic) signal
+    unchanged, so the table assembly is exercised with exact arithmetic and theorem-shaped signals"""
+    def __init__(self, starts, ends, sig, wt):
+        import pandas as pd
+        self.cols = {'start': pd.Series(np.array(starts, dtype=np.int64)), 'end': pd.Series(np.array(ends, dtype=np.int64))}
+        if wt is not None:
+            self.cols['weight'] = pd.Series(np.array(wt, dtype=float))
+        self.sig = np.array(sig, dtype=float)
+
+    def smooth_log2(self):
+        return self.sig.copy()
+
+    def __contains__(self, key):
+        return key in self.cols
+
+    def __getitem__(self, key):
+        return self.cols[key]
+
+
+def gen_coords(rng, n):
+    pos = rng.choice([0, 0, rng.randint(0, 10 ** 6)])
+    avg = rng.choice([50, 200, 1000, 20000])
+    starts, ends = [], []
+    for _ in range(n):
+        pos += rng.choice([0, 0, 1, rng.randint(0, avg), rng.randint(0, 50000)])
+        size = rng.randint(1, 2 * avg)
+        starts.append(pos)
+        ends.append(pos + size)
+        pos += size
+    return starts, ends
+
+
+def table_oracle(rows, chrom_of, starts, ends, sig, wt):
+    """independent statement of what the rows of one arm must be; rows: list of dicts; returns failure text or None"""
+    n = len(sig)
+    cum = 0
+    for r in rows:
+        k = r['probes']
+        if k <= 0 or cum + k > n:
+            return 'probes do not tile the bins of the arm'
+        if r['chromosome'] != chrom_of or r['gene'] != '-':
+            return 'chromosome / gene column wrong'
+        if r['start'] != starts[cum] or r['end'] != ends[cum + k - 1]:
+            return 'a row does not start at its first bin / end at its last bin'
+        d = [Fraction(x) for x in sig[cum:cum + k]]
+        if wt is not None and sum(Fraction(x) for x in wt[cum:cum + k]) > 0:
+            ws = [Fraction(x) for x in wt[cum:cum + k]]
+            m = sum(a * b for a, b in zip(d, ws)) / sum(ws)
+        else:
+            m = sum(d) / k
+        if abs(float(m) - r['log2']) > 1e-9 * max(1.0, abs(float(m))):
+            return 'log2 of a row is not the (weighted) mean of exactly its bins'
+        cum += k
+    if cum != n:
+        return 'probes do not sum to the number of bins'
+    return None
+
+
+def frame_rows(df):
+    return [{'chromosome': str(r.chromosome), 'start': int(r.start), 'end': int(r.end), 'log2': float(r.log2),
+             'gene': str(r.gene), 'probes': int(r.probes)} for r in df.itertuples(index=False)]
+
+
+def oracle_lists(pv, ab):
+    return ([math.sqrt(2.0 * 2 ** l) for l in LEVELS], [math.sqrt(2 ** l / 2) for l in LEVELS], pv, ab)
+
+
+def float_ambiguous_arm(haar, sig, wt, margin, near_tie):
+    if margin < 1e-9 or near_tie:
+        return True
+    for l in LEVELS:
+        W = None if wt is None else np.array(wt, dtype=float)
+        cconv = [float(x) for x in haar.HaarConv(np.array(sig, dtype=float), W, 2 ** l)]
+        mconv = vlib.model_call('c11_conv', [sig, wt, 2 ** l, scale_for(wt, 2 ** l)])
+        if not isinstance(mconv, Err) and len(mconv) == len(cconv) and sign_pattern_ambiguous(cconv, mconv):
+            return True
+    return False
+
+
+def check_one_chrom(ck, haar, n_cases):
+    """haar.one_chrom on a stub arm (identity smoothing): table rows against the independent oracle and the model"""
+    cases = []
+    for i in range(n_cases):
+        r = ck.rng.random()
+        if r < 0.35:
+            n = ck.rng.choice([64, 65, 100, ck.rng.randint(64, 400)])
+            t = ck.rng.choice([32, n - 32, ck.rng.randint(32, n - 32)])
+            a, b = ck.rng.choice(STEP_LEVELS)
+            kind, sig, truth = 'clean-step', [a] * t + [b] * (n - t), ('step', t, a, b)
+            wkind, wt = ck.rng.choice([('none', None), ('uniform', [ck.rng.randint(1, WGRID) / WGRID] * n)])
+        else:
+            n = gen_length(ck.rng)
+            kind, sig, truth = gen_signal(ck.rng, n)
+            wkind, wt = gen_weights(ck.rng, n)
+        starts, ends = gen_coords(ck.rng, len(sig))
+        q = ck.rng.choice([1e-4, 1e-4, 1e-3, 0.05])
+        chrom = ck.rng.choice(['chr1', 'chrX', '7', 'chr2_random'])
+        cases.append((kind, sig, truth, wkind, wt, starts, ends, q, chrom))
+    runs, reqs = [], []
+    for kind, sig, truth, wkind, wt, starts, ends, q, chrom in cases:
+        with FdrTap(haar) as tap:
+            df = guarded(haar.one_chrom, StubArm(starts, ends, sig, wt), q, chrom)
+        if isinstance(df, Err):
+            runs.append((df, 1.0, False))
+            reqs.append([starts, ends, sig, wt, q] + list(oracle_lists([[] for _ in LEVELS], [False] * len(LEVELS))))
+            continue
+        pv, ab, margin, near = fdr_oracles(tap.calls)
+        if len(pv) != len(LEVELS):
+            pv, ab = [[] for _ in LEVELS], [False] * len(LEVELS)
+        runs.append((frame_rows(df), margin, near))
+        reqs.append([starts, ends, sig, wt, q] + list(oracle_lists(pv, ab)))
+    model = vlib.model_batch_parallel('c11_one_chrom', reqs)
+    for (kind, sig, truth, wkind, wt, starts, ends, q, chrom), (rows, margin, near), m in zip(cases, runs, model):
+        n = len(sig)
+        case = {'fn': 'one_chrom', 'kind': kind, 'signal': sig, 'weights': wt, 'start': starts, 'end': ends, 'q': q, 'chrom': chrom}
+        if isinstance(rows, Err):
+            ck.count(['one_chrom', kind, wkind, n, sig[:8]], nontrivial=True, cls='one_chrom:raised')
+            if n == 0:
+                continue       # an empty arm is never produced by by_arm
+            ck.violation('one_chrom raised %s' % rows.msg, case, code=rows, clause='C11_table')
+            continue
+        ck.count(['one_chrom', kind, wkind, n, q, starts[:3], sig[:8]], nontrivial=len(rows) > 1,
+                 cls='one_chrom:%s:%s' % (kind, 'w' if wt is not None else 'u'))
+        bad = table_oracle(rows, chrom, starts, ends, sig, wt)
+        if bad:
+            ck.violation('one_chrom table: ' + bad, case, code=rows, clause='C11_table')
+            continue
+        uniform = wt is None or (len(set(wt)) == 1 and wt[0] > 0)
+        if truth and truth[0] == 'step' and uniform and truth[1] >= 32 and n - truth[1] >= 32:
+            _, t, a, b = truth
+            exp = [(starts[0], ends[t - 1], a, t), (starts[t], ends[n - 1], b, n - t)]
+            got = [(r['start'], r['end'], r['log2'], r['probes']) for r in rows]
+            if len(got) != 2 or any(g[0] != e[0] or g[1] != e[1] or g[3] != e[3] or abs(g[2] - e[2]) > 1e-9 for g, e in zip(got, exp)):
+                ck.violation('one_chrom on a noiseless step is not the two rows (first bin start, bin t-1 end, a, t), '
+                             '(bin t start, last bin end, b, n-t)', case, code=rows, expected=exp, clause='C11_clean_step_table')
+                continue
+        if isinstance(m, Err):
+            ck.tie_break('model one_chrom_table failed: %s' % m.msg, case, code=rows)
+            continue
+        same = len(m) == len(rows) and all(mr[0] == r['start'] and mr[1] == r['end'] and mr[3] == r['probes']
+                                           for mr, r in zip(m, rows))
+        if not same:
+            if float_ambiguous_arm(haar, sig, wt, margin, near):
+                ck.float_ambiguous += 1
+                ck.cls('one_chrom:float-ambiguous')
+                continue
+            ck.tie_break('model one_chrom_table rows differ from one_chrom', case, code=rows, model=m)
+        elif not all(vlib.close(r['log2'], mr[2]) for mr, r in zip(m, rows)):
+            ck.tie_break('model one_chrom_table means differ from one_chrom', case, code=rows, model=m)
+
+
+def gen_cna_case(ck):
+    """a small CopyNumArray: 1..3 chromosomes, some with a centromere-sized gap (two arms), noisy multi-level log2"""
+    rng = ck.rng
+    chroms, starts, ends, log2, weight = [], [], [], [], []
+    with_weight = rng.random() < 0.5
+    for c in range(rng.choice([1, 2, 2, 3])):
+        chrom = rng.choice(['chr%d' % (c + 1), '%d' % (c + 1), 'chrX'] if c else ['chr1', '1'])
+        if chrom in chroms:
+            chrom = 'chr%d' % (c + 11)
+        n = rng.choice([3, 30, 110, rng.randint(2, 220)])
+        cen = None
+        margin = max(50, int(round(0.1 * n)))
+        if n > 2 * margin + 1 and rng.random() < 0.6:
+            cen = rng.randint(margin + 1, n - margin - 1)
+        pos = rng.randint(0, 10 ** 5)
+        avg = rng.choice([200, 2000, 20000])
+        lev, left = 0.0, 0
+        sd = rng.choice([0.02, 0.05, 0.1])
+        for i in range(n):
+            if left == 0:
+                lev = rng.choice([0.0, 0.0, -1.0, 0.585, 1.0, -0.4])
+                left = rng.choice([5, 20, 40, 80, 200])
+            left -= 1
+            gap = rng.choice([0, 0, rng.randint(0, avg)])
+            if cen is not None and i == cen:
+                gap = rng.randint(100000, 3000000)
+            pos += gap
+            size = rng.randint(max(20, avg // 4), 2 * avg)
+            chroms.append(chrom)
+            starts.append(pos)
+            ends.append(pos + size)
+            pos += size
+            log2.append(lev + rng.gauss(0, sd))
+            weight.append(rng.randint(WGRID // 4, WGRID) / WGRID)   # dyadic: keeps the exact weighted quotients small
+    return {'chromosome': chroms, 'start': starts, 'end': ends, 'log2': log2, 'weight': weight if with_weight else None,
+            'q': rng.choice([1e-4, 1e-4, 1e-3, 0.01])}
+
+
+def check_segment_haar(ck, haar, n_cases):
+    """haar.segment_haar on real CopyNumArrays; by_arm and smooth_log2 (Savitzky-Golay) are taken from the code as
+    oracles, everything after them (haarSeg per arm, table rows from bin coordinates, concatenation in arm order,
+    chromosome labels) is compared with the model and with the independent table oracle"""
+    import pandas as pd
+    from cnvlib.cnary import CopyNumArray as CNA
+    cases = [gen_cna_case(ck) for _ in range(n_cases)]
+    runs, reqs = [], []
+    for case in cases:
+        cols = {'chromosome': case['chromosome'], 'start': case['start'], 'end': case['end'], 'gene': '-', 'log2': case['log2']}
+        if case['weight'] is not None:
+            cols['weight'] = case['weight']
+        cna = CNA(pd.DataFrame(cols), {'sample_id': 'c11'})
+        with FdrTap(haar) as tap:
+            out = guarded(haar.segment_haar, cna, case['q'])
+        if isinstance(out, Err):
+            runs.append((out, None, None))
+            reqs.append([])
+            continue
+        arms = []
+        for chrom, sub in cna.by_arm():
+            arms.append({'chrom': str(chrom), 'start': [int(x) for x in sub['start'].values], 'end': [int(x) for x in sub['end'].values],
+                         'sig': [float(x) for x in sub.smooth_log2()],
+                         'wt': [float(x) for x in sub['weight'].values] if 'weight' in sub else None})
+        calls = tap.calls
+        req, amb = [], []
+        ok = len(calls) == len(LEVELS) * len(arms)
+        for ai, arm in enumerate(arms):
+            cs = calls[ai * len(LEVELS):(ai + 1) * len(LEVELS)] if ok else []
+            pv, ab, margin, near = fdr_oracles(cs) if ok else ([[] for _ in LEVELS], [False] * len(LEVELS), 1.0, False)
+            amb.append((margin, near))
+            req.append([arm['chrom'], [arm['start'], arm['end'], arm['sig'], arm['wt'], case['q']] + list(oracle_lists(pv, ab))])
+        runs.append((frame_rows(out.data), arms, (ok, amb, list(out.data.columns))))
+        reqs.append(req)
+    model = vlib.model_batch_parallel('c11_segment_haar', reqs)
+    for case, (rows, arms, info), m in zip(cases, runs, model):
+        small = {'fn': 'segment_haar', 'chromosome': case['chromosome'], 'start': case['start'], 'end': case['end'],
+                 'log2': case['log2'], 'weight': case['weight'], 'q': case['q']}
+        if isinstance(rows, Err):
+            ck.count(['segment_haar', case['start'][:4], case['log2'][:4]], nontrivial=True, cls='segment_haar:raised')
+            ck.violation('segment_haar raised %s' % rows.msg, small, code=rows, clause='C11_table')
+            continue
+        ok, amb, columns = info
+        ck.count(['segment_haar', len(arms), case['q'], case['start'][:4], case['log2'][:4]], nontrivial=len(rows) > len(arms),
+                 cls='segment_haar:arms=%d:%s' % (min(len(arms), 4), 'w' if case['weight'] is not None else 'u'))
+        # independent oracle: the rows, arm after arm, tile each arm's bins; coordinates, labels and means per row
+        bad, pos = None, 0
+        for arm in arms:
+            n, cum, take = len(arm['sig']), 0, []
+            while pos < len(rows) and cum < n:
+                take.append(rows[pos])
+                cum += rows[pos]['probes']
+                pos += 1
+            bad = table_oracle(take, arm['chrom'], arm['start'], arm['end'], arm['sig'], arm['wt'])
+            if bad:
+                break
+        if not bad and pos != len(rows):
+            bad = 'more rows than the arms account for'
+        if bad:
+            ck.violation('segment_haar table: ' + bad, small, code=rows, clause='C11_table')
+            continue
+        if not ok:
+            ck.tie_break('segment_haar made %d FDRThres calls for %d arms x %d levels' % (len(amb), len(arms), len(LEVELS)), small)
+            continue
+        if isinstance(m, Err):
+            ck.tie_break('model segment_haar_table failed: %s' % m.msg, small, code=rows)
+            continue
+        same = len(m) == len(rows) and all(mr[0] == r['chromosome'] and mr[1] == r['start'] and mr[2] == r['end'] and mr[4] == r['probes']
+                                           for mr, r in zip(m, rows))
+        if not same:
+            if any(float_ambiguous_arm(haar, arm['sig'], arm['wt'], mg, nr) for arm, (mg, nr) in zip(arms, amb)):
+                ck.float_ambiguous += 1
+                ck.cls('segment_haar:float-ambiguous')
+                continue
+            ck.tie_break('model segment_haar_table rows differ from segment_haar', small, code=rows, model=m)
+        elif not all(vlib.close(r['log2'], mr[3]) for mr, r in zip(m, rows)):
+            ck.tie_break('model segment_haar_table means differ from segment_haar', small, code=rows, model=m)
+
+
+def pulse_closed_form(sig, p):
+    """even pulse sizes (the only ones haarSeg would use: 2 and 2*stepHalfSize): the mirrored moving average over
+    the p bins k - p/2 .. k + p/2 - 1"""
+    n = len(sig)
+    def ext(j):
+        if j < 0:
+            j = -j - 1
+        if j >= n:
+            j = 2 * n - 1 - j
+        return Fraction(sig[j])
+    return [sum(ext(j) for j in range(k - p // 2, k + p // 2)) / p for k in range(n)]
+
+
+def check_pulse(ck, haar, n_cases):
+    """PulseConv (reachable only through haarSeg's rawI branch) against the model, and for even pulse sizes against
+    the mirrored moving average; and the rawI branch itself, which raises for every array (`if rawI:`)"""
+    cases = []
+    for _ in range(n_cases):
+        n = ck.rng.choice([1, 2, 3, 8, ck.rng.randint(1, 40), ck.rng.randint(40, 200)])
+        if ck.rng.random() < 0.5:
+            sig = [float(ck.rng.random() < 0.3) for _ in range(n)]
+        else:
+            sig = [ck.rng.randint(-GRID, GRID) / GRID for _ in range(n)]
+        p = ck.rng.choice([0, 1, 2, 2, 3, 4, 4, 8, 16, 64, n, n + 1, max(1, n - 1)])
+        cases.append((sig, p))
+    model = vlib.model_batch('c11_pulse', [[s, p] for s, p in cases])
+    for (sig, p), m in zip(cases, model):
+        code = guarded(lambda: [float(x) for x in haar.PulseConv(np.array(sig, dtype=float), p)])
+        case = {'fn': 'PulseConv', 'signal': sig, 'pulseSize': p}
+        ck.count(['pulse', p, sig], nontrivial=not isinstance(code, Err), cls='pulse:%s' % ('raises' if isinstance(code, Err) else ('even' if p % 2 == 0 else 'odd')))
+        if isinstance(code, Err):
+            if m is not None:
+                ck.tie_break('PulseConv raises where the model returns a value', case, code=code, model=m)
+            continue
+        if p % 2 == 0 and p <= len(sig):
+            exp = pulse_closed_form(sig, p)
+            if not allclose(code, exp):
+                ck.violation('PulseConv with an even pulse size is not the mirrored moving average', case, code=code,
+                             expected=[float(x) for x in exp], clause='C11_pulse (rawI branch, unused by cnvkit)')
+                continue
+        if m is None or isinstance(m, Err) or not allclose(code, m):
+            ck.tie_break('model pulse_conv differs from PulseConv', case, code=code, model=m)
+    # the rawI branch is dead: `if rawI:` raises for any array of length >= 2 (and a list fails at `rawI < NSV_TH`)
+    for n in (2, 64, 200):
+        I = np.array([0.0] * (n // 2) + [1.0] * (n - n // 2))
+        for raw in (np.full(n, 100.0), [100.0] * n):
+            r = guarded(haar.haarSeg, I, 1e-4, rawI=raw)
+            ck.count(['rawI', n, type(raw).__name__], nontrivial=True, cls='haarseg:rawI-raises')
+            if not isinstance(r, Err):
+                ck.tie_break('haarSeg(rawI=...) returned a result: the rawI branch is live now and is not in the model '
+                             '(Model/Haar.v models rawI = None only)', {'fn': 'haarSeg', 'n': n, 'rawI': type(raw).__name__})
+
+
+def load_corpus():
+    import json, os
+    p = os.path.join(os.path.dirname(os.path.abspath(__file__)), '..', 'corpus', 'c11.json')
+    with open(p) as fh:
+        return json.load(fh)
+
+
+def corpus_cases():
+    """fixed regression cases (corpus/c11.json), expanded to haarSeg cases + the expected breakpoints"""
+    out = []
+    for c in load_corpus()['haarseg']:
+        sig = []
+        for v, k in c['runs']:
+            sig.extend([float(v)] * k)
+        n = len(sig)
+        wt = None if c.get('weight') is None else [float(c['weight'])] * n
+        cuts, pos = [], 0
+        for v, k in c['runs'][:-1]:
+            pos += k
+            cuts.append(pos)
+        vals = [float(v) for v, _ in c['runs']]
+        truth = None
+        if len(vals) == 1:
+            truth = ('flat', vals[0])
+        elif len(vals) == 2:
+            truth = ('step', cuts[0], vals[0], vals[1])
+        elif len(vals) == 3:
+            truth = ('two', cuts[0], cuts[1], vals[0], vals[1], vals[2])
+        out.append((('corpus', sig, truth, 'none' if wt is None else 'uniform', wt, c.get('q', 1e-4)), c))
+    return out
+
+
+def check_corpus(ck, haar):
+    items = corpus_cases()
+    check_haarseg(ck, haar, [x for x, _ in items])
+    for (kind, sig, truth, wkind, wt, q), c in items:
+        r = guarded(haar.haarSeg, np.array(sig, dtype=float), q, W=None if wt is None else np.array(wt, dtype=float))
+        got = None if isinstance(r, Err) else [int(x) for x in r['start'][1:]]
+        ck.count(['corpus-expect', c['what']], nontrivial=True, cls='corpus:expect')
+        if c.get('breaks') is not None and got != c['breaks']:
+            ck.violation('corpus case: %s' % c['what'], {'fn': 'haarSeg', 'runs': c['runs'], 'weight': c.get('weight'), 'q': q},
+                         code=got, expected=c['breaks'], clause=c.get('clause', 'C11_corpus'))
+
+
 def core_correspondence(ck, haar):
     quick = ck.tier == 'quick'
-    n_cases = 130 if quick else 6000
+    n_cases = 130 if quick else 2500
     cases, seg_cases = [], []
     for i in range(n_cases):
         n = gen_length(ck.rng)
@@ -534,23 +1035,53 @@ def core_correspondence(ck, haar):
         q = ck.rng.choice([1e-4, 1e-4, 1e-3, 0.005, 0.05, 0.4])
         seg_cases.append((kind, sig, truth, wkind, wt, q))
     # theorem-shaped cases: flat with every weight kind, clean steps at the 32-bin boundary
-    for i in range(20 if quick else 400):
+    for i in range(20 if quick else 300):
         n = ck.rng.choice([1, 2, 5, 31, 32, 33, 64, 65, ck.rng.randint(2, 700)])
         c = ck.rng.choice([0.0, -1.0, grid(0.585), grid(ck.rng.uniform(-3, 3))])
         wkind, wt = gen_weights(ck.rng, n)
         seg_cases.append(('flat', [c] * n, ('flat', c), wkind, wt, 1e-4))
         n = ck.rng.choice([64, 65, 66, 100, ck.rng.randint(64, 700)])
         t = ck.rng.choice([32, 33, n - 32, n - 33, ck.rng.randint(32, n - 32)])
-        a, b = ck.rng.choice([(0.0, -1.0), (-1.0, 0.0), (0.0, grid(0.585)), (1.0, 0.0), (0.0, 1 / GRID)])
-        seg_cases.append(('clean-step', [a] * t + [b] * (n - t), ('step', t, a, b), 'none', None, 1e-4))
+        a, b = ck.rng.choice(STEP_LEVELS + [(0.0, 1 / GRID), (grid(ck.rng.uniform(-2, 2)), grid(ck.rng.uniform(-2, 2)))])
+        if a == b:
+            b = a - 1.0
+        wkind, wt = ck.rng.choice([('none', None), ('none', None), ('one', [1.0] * n),
+                                   ('uniform', [ck.rng.randint(1, WGRID) / WGRID] * n),
+                                   ('half-one', [ck.rng.choice([0.5, 1.0]) for _ in range(n)]),
+                                   ('upper', [ck.rng.randint(WGRID // 2, WGRID) / WGRID for _ in range(n)]),
+                                   ('dyadic', [ck.rng.randint(1, WGRID) / WGRID for _ in range(n)])])
+        q = ck.rng.choice([1e-4, 1e-4, 1e-3, 0.05])
+        seg_cases.append(('clean-step', [a] * t + [b] * (n - t), ('step', t, a, b), wkind, wt, q))
+        # two separated clean steps at and around the 32 / 64 / 32 separations of C11_two_steps
+        n = ck.rng.choice([128, 129, 160, ck.rng.randint(128, 700)])
+        t1 = min(n - 96, ck.rng.choice([32, 33, ck.rng.randint(32, n - 96)]))
+        t2 = min(n - 32, ck.rng.choice([t1 + 64, t1 + 65, n - 32, ck.rng.randint(t1 + 64, n - 32)]))
+        a = ck.rng.choice([0.0, 0.0, -1.0])
+        d1 = ck.rng.choice([1.0, -1.0, grid(0.585), 0.25, 2.0])
+        d2 = ck.rng.choice([-d1, -d1, d1, d1 / 2, -2 * d1])
+        wkind, wt = ck.rng.choice([('none', None), ('none', None), ('uniform', [ck.rng.randint(1, WGRID) / WGRID] * n)])
+        b, c = grid(a + d1), grid(a + d1 + d2)
+        seg_cases.append(('clean-two-steps', [a] * t1 + [b] * (t2 - t1) + [c] * (n - t2), ('two', t1, t2, a, b, c), wkind, wt, q))
     t0 = time.time()
-    peak_sigs, peak_meta = check_conv_and_peaks(ck, haar, cases)
+    timing = {}
+
+    def timed(name, fn, *args):
+        t1 = time.time()
+        r = fn(*args)
+        timing[name] = round(time.time() - t1, 1)
+        return r
+    timed('corpus', check_corpus, ck, haar)
+    peak_sigs, peak_meta = timed('conv', check_conv_and_peaks, ck, haar, cases)
     extra_sigs, extra_meta = gen_plateau_signals(ck, 300 if quick else 10000)
-    check_peaks(ck, haar, peak_sigs + extra_sigs, peak_meta + extra_meta)
-    check_unify(ck, haar, 400 if quick else 20000)
-    check_segment(ck, haar, 150 if quick else 5000)
-    check_fdr(ck, haar, 150 if quick else 5000)
-    check_haarseg(ck, haar, seg_cases)
+    timed('peaks', check_peaks, ck, haar, peak_sigs + extra_sigs, peak_meta + extra_meta)
+    timed('unify', check_unify, ck, haar, 400 if quick else 20000)
+    timed('segment', check_segment, ck, haar, 150 if quick else 5000)
+    timed('fdr', check_fdr, ck, haar, 150 if quick else 5000)
+    timed('haarseg', check_haarseg, ck, haar, seg_cases)
+    timed('one_chrom', check_one_chrom, ck, haar, 60 if quick else 1500)
+    timed('segment_haar', check_segment_haar, ck, haar, 14 if quick else 300)
+    timed('pulse', check_pulse, ck, haar, 120 if quick else 5000)
+    ck.extra['core_parts_s'] = timing
     ck.extra['core_s'] = round(time.time() - t0, 1)
 
 
@@ -558,13 +1089,22 @@ def core_correspondence(ck, haar):
 # (b) monitoring of the claim on the real pipeline
 
 
-def gen_profile(ck, kind, method):
-    """kind: 'step' | 'flat' | 'mixed'.  Returns (case dict with the full table, truth rows)."""
+WEIGHT_MODES = ['random', 'all-half', 'all-one', 'two-valued', 'random-low-at-step']
+BIN_MODES = ['mixed', 'fixed', 'tiny-to-huge', 'mixed']
+
+
+def gen_profile(ck, kind, method, idx=0):
+    """kind: 'step' | 'flat' | 'mixed'.  Returns the case dict with the full table and the truth rows.
+    `idx` walks the strata of the quantifier systematically: direction and sign of the step, weight pattern
+    (all within [0.5, 1]), bin size / spacing regime, noise level; everything else is drawn from ck.rng."""
     rng = ck.rng
     nrs = np.random.RandomState(rng.randrange(2 ** 32))
     nch = rng.randint(1, 3)
-    sd = rng.choice([0.01, 0.1, rng.uniform(0.01, 0.1), rng.uniform(0.01, 0.1)])
-    chroms, starts, ends, levels, truth = [], [], [], [], []
+    sd = [0.01, 0.1, rng.uniform(0.01, 0.1), rng.uniform(0.05, 0.1)][idx % 4]
+    wmode = WEIGHT_MODES[(idx // 4) % len(WEIGHT_MODES)]
+    bmode = BIN_MODES[(idx // 2) % len(BIN_MODES)]
+    deltas = [-1.0, 0.585] + ([1.0] if method == 'haar' else [])
+    chroms, starts, ends, levels, truth, weight = [], [], [], [], [], []
     for c in range(nch):
         chrom = 'chr%d' % (c + 1)
         k = kind if kind != 'mixed' else rng.choice(['step', 'flat'])
@@ -572,8 +1112,8 @@ def gen_profile(ck, kind, method):
         if k == 'step':
             nl = rng.choice([100, 400, rng.randint(100, 400)])
             nr = rng.choice([100, 400, rng.randint(100, 400)])
-            d = rng.choice([-1.0, 0.585] + ([1.0] if method == 'haar' else []))
-            la, lb = (0.0, d) if rng.random() < 0.5 else (d, 0.0)
+            d = deltas[(idx + c) % len(deltas)]
+            la, lb = (0.0, d) if ((idx // 3) + c) % 2 == 0 else (d, 0.0)
             n = nl + nr
             lev = [la] * nl + [lb] * nr
             truth.append({'chrom': chrom, 'n': n, 't': nl, 'la': la, 'lb': lb, 'arms': 1})
@@ -589,21 +1129,39 @@ def gen_profile(ck, kind, method):
         pos = rng.randint(0, 100000)
         avg = rng.choice([200, 1000, 5000, 20000])
         for i in range(n):
-            gap = rng.choice([0, 0, rng.randint(0, avg), rng.randint(0, 40000)])
+            if bmode == 'fixed':
+                gap, size = 0, avg
+            elif bmode == 'tiny-to-huge':
+                gap = rng.choice([0, rng.randint(0, 90000)])
+                size = rng.choice([20, 50, avg, 10 * avg, rng.randint(20, 60000)])
+            else:
+                gap = rng.choice([0, 0, rng.randint(0, avg), rng.randint(0, 40000)])
+                size = rng.randint(max(20, avg // 4), avg * 2)
             if cen is not None and i == cen:
                 gap = rng.randint(100000, 5000000)
             pos += gap
-            size = rng.randint(max(20, avg // 4), avg * 2)
             chroms.append(chrom)
             starts.append(pos)
             ends.append(pos + size)
             pos += size
         levels.extend(lev)
+        t = truth[-1]['t']
+        if wmode == 'all-half':
+            w = [0.5] * n
+        elif wmode == 'all-one':
+            w = [1.0] * n
+        elif wmode == 'two-valued':
+            w = [rng.choice([0.5, 1.0]) for _ in range(n)]
+        else:
+            w = nrs.uniform(0.5, 1.0, n).tolist()
+            if wmode == 'random-low-at-step' and t is not None:
+                for i in range(max(0, t - 20), min(n, t + 20)):
+                    w[i] = 0.5
+        weight.extend(w)
     N = len(chroms)
     log2 = (np.array(levels) + nrs.normal(0, sd, N)).tolist()
-    weight = nrs.uniform(0.5, 1.0, N).tolist()
     case = {'method': method, 'kind': kind, 'sd': sd, 'truth': truth, 'chromosome': chroms, 'start': starts,
-            'end': ends, 'log2': log2, 'weight': weight}
+            'end': ends, 'log2': log2, 'weight': weight, 'strata': {'weights': wmode, 'bins': bmode}}
     return case
 
 
@@ -657,8 +1215,8 @@ def monitor(ck, method, n_profiles):
     t0 = time.time()
     stats = {'profiles': 0, 'chromosomes': 0, 'failed_profiles': 0, 'by_signature': {}}
     for i in range(n_profiles):
-        kind = ['step', 'flat', 'step', 'mixed'][i % 4]
-        case = gen_profile(ck, kind, method)
+        kind = ['step', 'flat', 'step', 'mixed', 'step'][i % 5]
+        case = gen_profile(ck, kind, method, i)
         try:
             segs = run_profile(case)
             fails = evaluate_profile(case, segs)
@@ -667,6 +1225,13 @@ def monitor(ck, method, n_profiles):
             fails = [('%s-exception' % method, 'do_segmentation raised %s: %s' % (type(e).__name__, str(e)[:200]), None)]
         stats['profiles'] += 1
         stats['chromosomes'] += len(case['truth'])
+        st = stats.setdefault('strata', {})
+        keys = ['weights=%s' % case['strata']['weights'], 'bins=%s' % case['strata']['bins'],
+                'sd=%s' % ('0.01' if case['sd'] <= 0.01 else ('0.1' if case['sd'] >= 0.1 else '(0.01,0.1)'))]
+        for tr in case['truth']:
+            keys.append('flat:arms=%d' % tr['arms'] if tr['t'] is None else 'step:%g->%g' % (tr['la'], tr['lb']))
+        for key in keys:
+            st[key] = st.get(key, 0) + 1
         small = {k: case[k] for k in ('method', 'kind', 'sd', 'truth')}
         ck.count(['profile', method, kind, case['sd'], case['truth'], case['log2'][:4]], nontrivial=True,
                  cls='monitor:%s:%s' % (method, kind))
@@ -686,38 +1251,55 @@ def monitor(ck, method, n_profiles):
 
 def run(ck, scratch):
     from cnvlib.segmentation import haar
-    ck.rule = ('core: dyadic signals (values k/1024: constant, clean step, noisy step, multi-level, plateaus, small alphabets, '
-               'uniform) x weights (None, 1, {1/2,1}, k/64) x lengths 1..700 biased to each level half-width +-1; HaarConv at '
-               'h=1 and h=2..32 (+ one odd/limit half-width) against integer mirrored window sums and the model; FindLocalPeaks '
-               'on every HaarConv output and on synthetic plateau sequences against the plateau characterisation and the model; '
-               'UnifyLevels on sorted lists with add-ons placed at the window edges (+10% unsorted/duplicate, model only); '
-               'SegmentByPeaks against Fraction means; FDRThres and haarSeg with the p-values supplied from scipy as the code '
-               'computes them. monitoring: generated step/flat/mixed profiles per the quantifier through do_segmentation. '
+    ck.rule = ('corpus first (corpus/c11.json: flat / clean-step / two-step regression cases). core: dyadic signals (values k/1024: '
+               'constant, clean step, two clean steps, noisy step, multi-level, plateaus, small alphabets, uniform) x weights (None, 1, one '
+               'uniform k/64, {1/2,1}, k/64) x lengths 1..700 biased to each level half-width +-1; HaarConv at h=1 and h=2..32 (+ one '
+               'odd/limit half-width) against integer mirrored window sums and the model; FindLocalPeaks on every HaarConv output and on '
+               'synthetic plateau sequences against the plateau characterisation and the model; UnifyLevels on sorted lists with add-ons '
+               'placed at the window edges (+10% unsorted/duplicate, model only); SegmentByPeaks against Fraction means; FDRThres and '
+               'haarSeg with the p-values supplied from scipy as the code computes them; theorem-shaped cases: clean steps with t, n-t at '
+               '32/33 (no / uniform weights, both directions), two clean steps at the 32/64/32 separations -- per level the tent formula and '
+               'the exact peak list on the code\'s HaarConv / FindLocalPeaks, every row mean against the Fraction mean of its bins; '
+               'one_chrom on a stub arm (identity smoothing, random bin coordinates) and segment_haar on real CopyNumArrays (by_arm and '
+               'smooth_log2 taken from the code) against the table oracle and the model; PulseConv against the model / the mirrored moving '
+               'average, and the dead rawI branch. monitoring: generated step/flat/mixed profiles per the quantifier through '
+               'do_segmentation, stratified over direction and sign, weight pattern, bin-size regime and noise level. '
                'non-trivial = non-zero convolution / at least one peak / both lists non-empty / at least one breakpoint / every profile')
     ck.explanation = (
         'Level other (partial). Proved in Coq for the exact-arithmetic model of the HaarSeg core (Props/C11.v): flat signals give '
         'zero convolution, no peaks, no breakpoints and one segment at the constant; the recurrence equals the mirrored '
-        'window-sum closed form; level unification is sorted, duplicate-free, keeps every base breakpoint and no add-on within a '
-        'window; start/end/size tile 0..n. The model is tied to cnvlib.segmentation.haar by differential correspondence on dyadic '
-        'inputs. The property text itself (noisy profiles, sd <= 0.1, Savitzky-Golay pre-smoothing, FDR threshold through the normal '
-        'cdf, and the whole hmm-germline path through pomegranate) is NOT proved: it is monitored by evaluating the statement on '
-        'generated profiles (coverage.monitoring).')
+        'window-sum closed form; a noiseless step with >= 32 bins per side (any n, t, a != b; no or uniform weights: the tent '
+        'amp*max(0, h-|k-t|), C11_clean_step; arbitrary positive weights: the unimodal weight-share shape, C11_clean_step_weighted) gives '
+        'at every level exactly the peak [t], threshold 0, the single breakpoint t and two rows with means exactly a and b '
+        '(+ C11_clean_step_table); two separated noiseless steps give exactly the peaks [t1; t2] and never any '
+        'other breakpoint (C11_two_steps); for any breakpoints every row mean is the (weighted) mean of exactly its bins and the rows '
+        '(start/end coordinates from the first/last bin, probes) tile the arm (C11_segment_means, C11_step_means, C11_table, C11_sizes); '
+        'level unification is sorted, duplicate-free, keeps every base breakpoint and no add-on within a window. The model is tied to '
+        'cnvlib.segmentation.haar by differential correspondence on dyadic inputs (HaarConv, FindLocalPeaks, FDRThres, UnifyLevels, '
+        'SegmentByPeaks, haarSeg, one_chrom, segment_haar, PulseConv). The property text itself (noisy profiles, sd <= 0.1, '
+        'Savitzky-Golay pre-smoothing, FDR threshold through the normal cdf, and the whole hmm-germline path through pomegranate) is NOT '
+        'proved: it is monitored by evaluating the statement on generated profiles (coverage.monitoring).')
     ck.unproved_remainder = [
-        'the noisy statistical claim for haar (exactly one breakpoint within 5 bins, means within 0.1, flat -> one segment per arm, '
-        'for Gaussian noise sd <= 0.1): sampled only (coverage.monitoring.haar); a worst-case theorem is false at these parameters '
-        'and a probabilistic one needs tail bounds through scipy savgol + the FDR procedure',
-        'everything about hmm-germline (pomegranate Baum-Welch fit, MAP decoding, squash_by_groups): sampled only '
-        '(coverage.monitoring.hmm-germline); outside the model',
-        'smooth_log2 / savgol pre-smoothing, drop_outliers, by_arm and transfer_fields are on the code side of the monitoring only',
+        'SAMPLED, NOT PROVED: the noisy statistical claim for haar (exactly one breakpoint within 5 bins, means within 0.1, flat -> one '
+        'segment per arm, for Gaussian noise sd <= 0.1): coverage.monitoring.haar lists the number of profiles and the strata walked '
+        '(direction/sign, weight pattern, bin-size regime, noise level); a worst-case theorem is false at these parameters and a '
+        'probabilistic one needs tail bounds through scipy savgol + the FDR procedure',
+        'SAMPLED, NOT PROVED: everything about hmm-germline (pomegranate Baum-Welch fit, MAP decoding, squash_by_groups): '
+        'coverage.monitoring.hmm-germline; outside the model',
+        'two clean steps: which of the two peaks survive the two-peak FDR threshold depends on the p-value oracle and on the 1e-16 float '
+        'fallback; proved: nothing but t1, t2 is ever reported, and t_i is reported iff its peak passes some level',
+        'smooth_log2 / savgol pre-smoothing, by_arm (oracles taken from the code in the segment_haar correspondence), drop_outliers and '
+        'transfer_fields are on the code side of the monitoring only; variants_in_segment and the rawI branch of haarSeg (dead: '
+        '`if rawI:` raises for every array) are outside the model',
         'FDRThres p-values (normal cdf with the sigma estimate passed as location) and the sqrt scale constants are oracles supplied '
-        'from scipy/libm; float rounding of the convolution is bridged by the 1e-9 comparison rule',
+        'from scipy/libm (proofs need only scale != 0); float rounding of the convolution is bridged by the 1e-9 comparison rule',
     ]
     if not ck.build_status.get('driver_ok'):
         raise RuntimeError('model driver unavailable')
     core_correspondence(ck, haar)
     quick = ck.tier == 'quick'
-    monitor(ck, 'haar', 160 if quick else 3000)
-    monitor(ck, 'hmm-germline', 80 if quick else 1500)
+    monitor(ck, 'haar', 300 if quick else 2500)
+    monitor(ck, 'hmm-germline', 100 if quick else 1000)
 
 
 def replay(ck, body):
